@@ -12,6 +12,7 @@ from . import c01, c06, c08
 ID = 'C07'
 LEVEL = 'exploration'
 JK = 24          # resolution of the systematic (j, k) family
+LINE_JK = 1000   # resolution of (j, k) drawn at line granularity
 RULE = ('2-3 real threads, each with its own compiled workbook and program (iterative '
         'evaluation with per-thread iterations/tolerance and a PROBE pass counter; array-formula '
         'evaluation that needs expanding / trimming / NA-filling; plain set_value/evaluate '
@@ -23,10 +24,19 @@ RULE = ('2-3 real threads, each with its own compiled workbook and program (iter
         'Schedules: the systematic family "A runs to its j-th yield point, B runs to completion '
         'or to its k-th yield point, A finishes, B finishes" (%d x %d grid over the alone-run '
         'lengths, enumerated over consecutive run indexes per workload pair) and seeded random '
-        'switching (p = 0.02-0.5). Oracle: per thread, the list of operation outcomes and pass '
-        'counts equals that of the same program run alone on a used thread; the same holds alone '
-        'on a fresh and on a warmed-up thread. non-trivial = a run with at least one switch '
-        'taken while the pre-empted thread was inside a formula evaluation; distinct = distinct '
+        'switching (p = 0.02-0.5). A quarter of the randomly scheduled runs and all runs of the '
+        'last segment (site sweep) use LINE granularity instead: sys.settrace on the controlled '
+        'threads makes every change of line inside pycel\'s own source files a yield point '
+        '(library functions, helpers, graph building, loading included); the site sweep walks '
+        'the pre-emption point through the distinct functions the first thread passes through '
+        '(low-discrepancy sequence over run indexes, so that a ten-line helper is pre-empted as '
+        'often as the evaluation loop) and in 60 percent of these runs stops the second thread a '
+        'few lines past one of its own visits of the same function, so that both threads are '
+        'inside it at once. Oracle: per thread, the list of operation outcomes and pass counts '
+        'and a digest of the cells and dependency edges of the model the thread ended up with '
+        'equal those of the same program run alone on a used thread; the same holds alone on a '
+        'fresh and on a warmed-up thread. non-trivial = a run with at least one switch taken '
+        'while the pre-empted thread was inside a formula evaluation; distinct = distinct '
         'sequences of switches actually taken' % (JK, JK))
 COMPONENTS = {
     'real': ['pycel from the working tree incl. its two threading.local() singletons and the '
@@ -34,11 +44,14 @@ COMPONENTS = {
              'threading.local', 'ruamel.yaml / json / pickle for from_file workloads', 'openpyxl'],
     'stub': ['baton-passing scheduler (sim/sched.py): decides which thread runs after every '
              'yield point', 'yield points installed through ExcelFormula.build_eval_context '
-             '(sim/seams.py)', 'PROBE plugin (pass counter)', 'program generator and driver'],
+             '(sim/seams.py) and, at line granularity, through sys.settrace on the controlled '
+             'threads (line events of files below pycel/ only, one per change of line in a frame)',
+             'PROBE plugin (pass counter)', 'program generator and driver'],
 }
 ASSUMPTIONS = [
-    'pre-emption happens only at yield points of cell-evaluation granularity (what the '
-    'statement quantifies over), not between arbitrary bytecodes',
+    'pre-emption happens at yield points of cell-evaluation granularity (what the statement '
+    'quantifies over) and, in the line-grained runs, between lines of pycel\'s own source; '
+    'never between the bytecodes of one line and never inside openpyxl / networkx / ruamel',
     'two threads never share a compiler (neither pycel nor the statement promises that)',
     'KF4 (CELL / reference-form INDEX read through whichever compiler loaded the function last) '
     'is a known finding: only a fixed minority of runs uses CELL',
@@ -47,10 +60,14 @@ ASSUMPTIONS = [
 KINDS = ('iterative', 'array', 'plain', 'load', 'trim', 'iter-acyclic')
 
 
+MIXED = {'quick': (1152, 2400), 'thorough': (JK * JK * 60, JK * JK * 60 + 40000)}
+SITE_RUNS = {'quick': 1600, 'thorough': 40000}
+
+
 def budget(tier):
     if tier == 'quick':
-        return dict(runs=2400, recheck=12, shrink_tests=200)
-    return dict(runs=JK * JK * 60 + 40000, recheck=32, shrink_tests=400)
+        return dict(runs=MIXED['quick'][1] + SITE_RUNS['quick'], recheck=12, shrink_tests=200)
+    return dict(runs=MIXED['thorough'][1] + SITE_RUNS['thorough'], recheck=32, shrink_tests=400)
 
 
 # ---------------------------------------------------------------------------
@@ -194,7 +211,7 @@ def draw_program(rnd, tname, kind):
 
 def gen_case(rnd, tier, index):
     grid = JK * JK
-    systematic = (tier == 'thorough' and index < grid * 60) or (tier == 'quick' and index < 1152)
+    systematic = index < MIXED[tier if tier in MIXED else 'quick'][0]
     if systematic:
         pair = index // grid
         prnd = random.Random(core.run_seed('C07/pair', pair))
@@ -209,6 +226,19 @@ def gen_case(rnd, tier, index):
         k = index % JK
         schedule = {'family': 'jk', 'j': j + 1, 'k': k, 'J': JK, 'K': JK}
         cfg = {'pair': pair}
+    elif index >= MIXED[tier if tier in MIXED else 'quick'][1]:
+        # site sweep: the function in which the first thread is pre-empted walks through the
+        # functions of its alone run (low-discrepancy sequence over run indexes), see below
+        n_ = index - MIXED[tier if tier in MIXED else 'quick'][1]
+        kinds = [rnd.choice(KINDS), rnd.choice(KINDS)]
+        programs = [draw_program(rnd, f'T{i}', k) for i, k in enumerate(kinds)]
+        schedule = {'family': 'site', 'u': round((n_ * 0.6180339887498949) % 1.0, 6),
+                    'v': round((n_ * 0.7548776662466927) % 1.0, 6),
+                    'k': rnd.choice((0, 0, rnd.randrange(1, LINE_JK))), 'K': LINE_JK,
+                    'first': n_ % 2, 'grain': 'line'}
+        if rnd.random() < 0.6:
+            schedule['meet'] = [round(rnd.random(), 6), rnd.choice((0, 1, 2, 3, 5, 8))]
+        cfg = {}
     else:
         n = rnd.choice((2, 2, 3))
         kf4 = index % 50 == 17
@@ -216,17 +246,40 @@ def gen_case(rnd, tier, index):
         if kf4:
             kinds = ['cellfn', 'cellfn'] + kinds[2:]
         programs = [draw_program(rnd, f'T{i}', k) for i, k in enumerate(kinds)]
-        p = rnd.choice((0.02, 0.05, 0.1, 0.2, 0.5))
-        steps = []
-        s = 0
         names = [pr['name'] for pr in programs]
-        while s < 6000 and len(steps) < 600:
-            gap = 1
-            while rnd.random() > p and gap < 400:
-                gap += 1
-            s += gap
-            steps.append([s, rnd.choice(names)])
-        schedule = {'family': 'random', 'p': p, 'switches': steps}
+        line = (not kf4) and rnd.random() < 0.25
+        if line and rnd.random() < 0.5:
+            # A is pre-empted inside a function drawn uniformly from the *distinct* functions
+            # of pycel its alone run passes through (so that a leaf function that accounts
+            # for ten lines is as likely as the evaluation loop), at one of that function's
+            # lines; B runs to the end or to its k-th line
+            schedule = {'family': 'site', 'u': round(rnd.random(), 6), 'v': round(rnd.random(), 6),
+                        'k': rnd.choice((0, 0, rnd.randrange(1, LINE_JK))), 'K': LINE_JK,
+                        'first': rnd.randrange(len(names)), 'grain': 'line'}
+            if rnd.random() < 0.6:
+                # ... and B is stopped inside the *same* function (a few lines past one of
+                # its own visits), so that both threads are in the middle of it at once
+                schedule['meet'] = [round(rnd.random(), 6), rnd.choice((0, 1, 2, 3, 5, 8))]
+        elif line and rnd.random() < 0.5:
+            # "A to its j-th line, B to its k-th line or to the end, A, B" at line granularity
+            schedule = {'family': 'jk', 'j': rnd.randrange(1, LINE_JK), 'J': LINE_JK,
+                        'k': rnd.choice((0, rnd.randrange(1, LINE_JK))), 'K': LINE_JK,
+                        'grain': 'line'}
+        else:
+            p = rnd.choice((0.001, 0.003, 0.01, 0.03)) if line else \
+                rnd.choice((0.02, 0.05, 0.1, 0.2, 0.5))
+            horizon, longest = (400000, 20000) if line else (6000, 400)
+            steps = []
+            s = 0
+            while s < horizon and len(steps) < 600:
+                gap = 1 + int(rnd.expovariate(p)) if line else 1
+                while not line and rnd.random() > p and gap < longest:
+                    gap += 1
+                s += min(gap, longest)
+                steps.append([s, rnd.choice(names)])
+            schedule = {'family': 'random', 'p': p, 'switches': steps}
+            if line:
+                schedule['grain'] = 'line'
         cfg = {}
     return {'spec': programs[0]['spec'], 'cfg': cfg, 'programs': programs, 'schedule': schedule,
             'ops': []}
@@ -321,6 +374,14 @@ def execute(prog, model_or_path, tmp, suffix, yield_point=None):
         if calls:
             res['passes'] = sorted(calls.items())
         out.append(res)
+    # what the thread built, not only what it returned: the cells and the edges of its model
+    try:
+        edges = sorted((str(u.address), str(v.address)) for u, v in model.dep_graph.edges())
+        cells = sorted(model.cell_map)
+        out.append({'graph': hashlib.sha256(repr((cells, edges)).encode()).hexdigest()[:12],
+                    'cells': len(cells), 'edges': len(edges)})
+    except Exception as exc:   # noqa
+        out.append({'graph': f'unreadable: {type(exc).__name__}'})
     yp('end')
     return out
 
@@ -362,7 +423,12 @@ def run_alone(prog, tmp, suffix, heavy):
     return on_fresh_thread(body, name=f'alone-{suffix}')
 
 
-def count_events(prog, tmp, suffix):
+def src_prefix():
+    import pycel
+    return os.path.dirname(os.path.abspath(pycel.__file__)) + os.sep
+
+
+def count_events(prog, tmp, suffix, grain='cell'):
     """length of the alone run in yield points (for resolving (j, k))"""
     box = {}
 
@@ -370,9 +436,11 @@ def count_events(prog, tmp, suffix):
         box['m'] = None if prog['build'] == 'inside' and prog['kind'] != 'load' else make_model(
             prog, tmp, suffix)
     on_fresh_thread(setup, name=f'setup-{suffix}')
-    s = sched.Scheduler([prog['name']], [], step_cap=10 ** 7)
+    s = sched.Scheduler([prog['name']], [], step_cap=10 ** 8, grain=grain, prefix=src_prefix())
+    if grain == 'line':
+        s.site_steps = {}
     s.run({prog['name']: lambda: execute(prog, box['m'], tmp, suffix, s.yield_point)})
-    return s.step
+    return s.step, s.site_steps
 
 
 _REF_CACHE = {}
@@ -395,13 +463,15 @@ def run_case(case):
 
     names = [p['name'] for p in programs]
     plugin.reset()
-    key = hashlib.sha256(json.dumps(programs, sort_keys=True, default=str).encode()).hexdigest()
+    grain = schedule.get('grain', 'cell')
+    key = hashlib.sha256(json.dumps([programs, grain], sort_keys=True, default=str).encode()
+                         ).hexdigest()
     with TmpDir() as tmp:
         # 1. alone on a used thread (reference), alone on a fresh thread, alone on a warm thread
         if key in _REF_CACHE:
-            ref, lengths = _REF_CACHE[key]
+            ref, lengths, sites = _REF_CACHE[key]
         else:
-            ref, lengths = {}, {}
+            ref, lengths, sites = {}, {}, {}
             for p in programs:
                 ref[p['name']] = run_alone(p, tmp, 'ref', heavy=False)
                 fresh = run_alone(p, tmp, 'fresh', heavy=None)
@@ -419,11 +489,11 @@ def run_case(case):
                     violate('warm-thread-differs', p['name'], ref[p['name']][i:i + 1],
                             warm[i:i + 1], step=i, kind=p['kind'], build=p['build'])
                     break
-                lengths[p['name']] = count_events(p, tmp, 'len')
+                lengths[p['name']], sites[p['name']] = count_events(p, tmp, 'len', grain)
             if not state['violation']:
                 if len(_REF_CACHE) > 8:
                     _REF_CACHE.clear()
-                _REF_CACHE[key] = (ref, lengths)
+                _REF_CACHE[key] = (ref, lengths, sites)
         switches = []
         taken = []
         if not state['violation']:
@@ -437,6 +507,30 @@ def run_case(case):
                     k = max(1, (schedule['k'] * nb) // schedule['K'])
                     switches.append([j + k, a])
                 count('schedule:jk')
+            elif schedule.get('family') == 'site' and 'switches' not in schedule:
+                first = names[schedule['first'] % len(names)]
+                other = [n for n in names if n != first][0]
+                table = sites[first] or {}
+                keys = sorted(table)
+                if keys:
+                    site = keys[min(len(keys) - 1, int(schedule['u'] * len(keys)))]
+                    occ = table[site]
+                    j = occ[min(len(occ) - 1, int(schedule['v'] * len(occ)))]
+                    # the first thread to run is names[0]: hand over at once if need be
+                    switches = [] if first == names[0] else [[1, first]]
+                    off = 0 if first == names[0] else 1
+                    switches.append([j + off, other])
+                    meet = schedule.get('meet')
+                    occ_b = (sites.get(other) or {}).get(site)
+                    if meet and occ_b:
+                        at = occ_b[min(len(occ_b) - 1, int(meet[0] * len(occ_b)))]
+                        switches.append([j + off + at + meet[1], first])
+                        count('probe:both-threads-inside-the-same-function')
+                    elif schedule['k'] > 0:
+                        k = max(1, (schedule['k'] * lengths[other]) // schedule['K'])
+                        switches.append([j + off + k, first])
+                    count('site-targeted:' + site.split(':')[0])
+                count('schedule:site')
             else:
                 switches = [list(s) for s in schedule.get('switches', [])]
                 count('schedule:' + schedule.get('family', 'explicit'))
@@ -449,7 +543,7 @@ def run_case(case):
                     models[p['name']] = None if (p['build'] == 'inside' and p['kind'] != 'load') \
                         else make_model(p, tmp, 'conc')
             on_fresh_thread(setup, name='setup-conc')
-            s = sched.Scheduler(names, switches, step_cap=cap)
+            s = sched.Scheduler(names, switches, step_cap=cap, grain=grain, prefix=src_prefix())
 
             def body(p):
                 def run():
@@ -463,6 +557,13 @@ def run_case(case):
             count('yield-points', s.step)
             count('fault:preempt', len(taken))
             count('probe:preemption-inside-a-formula-evaluation', s.preempt_inside_eval)
+            count('grain:' + grain)
+            for site in s.switch_sites:
+                count('probe:line-preemption-in:' + site.split(':')[0])
+            if s.switch_sites:
+                count('probe:line-preemption-inside-a-library-function',
+                      sum(1 for x in s.switch_sites if not x.startswith('excelcompiler.py')
+                          and not x.startswith('excelformula.py')))
             for p in programs:
                 if p.get('warm'):
                     count('fault:warm-thread')
@@ -539,13 +640,14 @@ def shrink(case, tag, max_tests):
     # make the schedule explicit: only the switches that were actually taken
     taken = [[st, to] for st, _, to in r['violation'].get('switches_taken', [])]
     cand = json.loads(json.dumps(best))
-    cand['schedule'] = {'family': 'explicit', 'switches': taken}
+    grain = best['schedule'].get('grain', 'cell')
+    cand['schedule'] = {'family': 'explicit', 'switches': taken, 'grain': grain}
     if fails(cand):
         best = cand
 
     def with_switches(sw):
         c = json.loads(json.dumps(best))
-        c['schedule'] = {'family': 'explicit', 'switches': sw}
+        c['schedule'] = {'family': 'explicit', 'switches': sw, 'grain': grain}
         return c
     if best['schedule'].get('switches'):
         sw = core.ddmin_list(best['schedule']['switches'],
